@@ -241,7 +241,7 @@ class UsbTransport(BaseTransport):   # pragma: no cover
             if (platform.system() != 'Windows' and transport.kernelDriverActive(iface_number)):
                 transport.detachKernelDriver(iface_number)
         except usb1.USBErrorNotFound:  # pylint: disable=no-member
-            warnings.warn('Kernel driver not found for interface: %s.', iface_number)
+            warnings.warn('Kernel driver not found for interface: %s.' % iface_number)
 
         # # When this object is deleted, make sure it's closed.
         # weakref.ref(self, self.close)
@@ -347,7 +347,7 @@ class UsbTransport(BaseTransport):   # pragma: no cover
             if (platform.system() != 'Windows' and transport.kernelDriverActive(iface_number)):
                 transport.detachKernelDriver(iface_number)
         except usb1.USBErrorNotFound:  # pylint: disable=no-member
-            warnings.warn('Kernel driver not found for interface: %s.', iface_number)
+            warnings.warn('Kernel driver not found for interface: %s.' % iface_number)
         transport.claimInterface(iface_number)
         self._transport = transport
         self._interface_number = iface_number
